@@ -93,6 +93,11 @@ pub struct Cx {
     pub classes: Vec<&'static str>,
     /// counted tolerances / skips (still a pass)
     pub tolerated: Vec<&'static str>,
+    /// failures that must not stop the evaluation of the remaining clauses
+    /// of this case (used for clauses with a listed finding, so that the
+    /// search continues *behind* the finding); judged by the engine after
+    /// the test function returns.
+    pub soft: Vec<Failure>,
 }
 
 impl Cx {
@@ -116,6 +121,9 @@ impl Cx {
     }
     pub fn tolerate(&mut self, c: &'static str) {
         self.tolerated.push(c);
+    }
+    pub fn soft_fail(&mut self, sig: impl Into<String>, msg: impl Into<String>) {
+        self.soft.push(Failure::new(sig, msg));
     }
 }
 
@@ -573,6 +581,7 @@ pub fn run_case<C>(
     cx: &mut Cx,
 ) -> CaseResult {
     match guard(check, || test(case, cx)) {
+        Ok(Ok(())) => Ok(()),
         Ok(r) => r,
         Err(mut f) => {
             // strip the "check/" prefix added by guard: the engine adds it
@@ -613,7 +622,11 @@ where
             Failure::new("replay-decode", format!("cannot decode case: {e}"))
         })?;
         let mut cx = Cx::default();
-        run_case(self.name, self.test, &c, &mut cx)
+        run_case(self.name, self.test, &c, &mut cx)?;
+        match cx.soft.into_iter().next() {
+            Some(f) => Err(f),
+            None => Ok(()),
+        }
     }
 }
 
@@ -651,8 +664,21 @@ where
                 return Ok(());
             }
             let mut cx = Cx::default();
-            let r = run_case(self.name, self.test, &case, &mut cx);
+            let mut r = run_case(self.name, self.test, &case, &mut cx);
             let counting = !failed.get();
+            if r.is_ok() {
+                for f in cx.soft.drain(..) {
+                    let full = format!("{}/{}", self.name, f.sig);
+                    if rec.is_known(&full).is_some() {
+                        if counting {
+                            rec.known_hit(full, &f.msg);
+                        }
+                    } else {
+                        r = Err(f);
+                        break;
+                    }
+                }
+            }
             match r {
                 Ok(()) => {
                     if counting {
@@ -707,6 +733,9 @@ where
                 let mut cx = Cx::default();
                 let f = match run_case(self.name, self.test, &value, &mut cx) {
                     Err(f) => f,
+                    Ok(()) if cx.soft.iter().any(|f| rec.is_known(&format!("{}/{}", self.name, f.sig)).is_none()) => {
+                        cx.soft.iter().find(|f| rec.is_known(&format!("{}/{}", self.name, f.sig)).is_none()).cloned().unwrap()
+                    }
                     Ok(()) => last_fail.borrow().clone().unwrap_or_else(|| {
                         Failure::new("flaky", "shrunk case passes on re-run")
                     }),
